@@ -40,6 +40,10 @@ struct Case {
     b_hooks: Vec<HookSpec>,
     empty_alpn: bool,
     self_dial: bool,
+    /// additional protocol names offered next to the primary one: 0 = none, 1 = [ALPN],
+    /// 2 = ["", ALPN], 3 = [ALPN, ""]
+    #[serde(default)]
+    additional: u8,
 }
 
 fn hook() -> impl Strategy<Value = HookSpec> {
@@ -53,8 +57,9 @@ fn strategy() -> impl Strategy<Value = Case> {
         proptest::collection::vec(hook(), 0..=3),
         prop::bool::weighted(0.12),
         prop::bool::weighted(0.12),
+        prop_oneof![3 => Just(0u8), 1 => 1u8..4],
     )
-        .prop_map(|(a_hooks, b_hooks, empty_alpn, self_dial)| Case { a_hooks, b_hooks, empty_alpn, self_dial })
+        .prop_map(|(a_hooks, b_hooks, empty_alpn, self_dial, additional)| Case { a_hooks, b_hooks, empty_alpn, self_dial, additional })
 }
 
 fn code_of(side: u8, idx: usize, tag: u8) -> u32 {
@@ -198,7 +203,25 @@ async fn run_async(c: &Case) -> Outcome {
 
     let target: EndpointAddr = if c.self_dial { a.addr() } else { b.addr() };
     let alpn: &[u8] = if c.empty_alpn { b"" } else { ALPN };
-    let res = e2e::within(60, "connect with hooks", a.connect(target, alpn)).await;
+    // an empty *additional* name next to a valid primary one is outside the domain (the statement
+    // speaks of connecting "with an empty protocol name"; the primary name is the one checked)
+    let additional = if c.empty_alpn { c.additional } else { c.additional.min(1) };
+    let extra: Vec<Vec<u8>> = match additional {
+        0 => vec![],
+        1 => vec![ALPN.to_vec()],
+        2 => vec![vec![], ALPN.to_vec()],
+        _ => vec![ALPN.to_vec(), vec![]],
+    };
+    let dial = async {
+        if additional == 0 {
+            a.connect(target, alpn).await
+        } else {
+            let opts = iroh::endpoint::ConnectOptions::new().with_additional_alpns(extra);
+            let connecting = a.connect_with_opts(target, alpn, opts).await?;
+            Ok(connecting.await?)
+        }
+    };
+    let res = e2e::within(60, "connect with hooks", dial).await;
     let a_view = match res {
         Err(ConnectError::Connect { source, .. }) => match source {
             ConnectWithOptsError::LocallyRejected { .. } => View::LocallyRejected,
